@@ -102,6 +102,14 @@ func checkC11(c *checkCtx) int {
 			c.infraf("worker produced no summary: %s", describeFailure(w))
 		}
 	}
+	// budgets under concurrent creation (simsched engine, plain build): what other
+	// callers parse at the same time must not change the outcome of a budgeted parse
+	concPlans := 960
+	if c.Tier == "thorough" {
+		concPlans = 60000
+	}
+	agg := newSchedAgg()
+	c.runSchedHot("C11", "plain", concPlans, soft, timeout, agg)
 	if tot.EntrySites == 0 && len(c.infra) == 0 {
 		fmt.Println("note: (*parser).parseExpr not found in the instrumented tree; only the proportional work bound was applied")
 	}
@@ -127,9 +135,11 @@ func checkC11(c *checkCtx) int {
 		"steps_per_hour":                      float64(tot.Steps) / wall * 3600,
 		"runs_per_hour":                       float64(tot.Budgets) / wall * 3600,
 		"worker_processes":                    nproc,
-		"budget_error_signature_learned":      tot.Signature,
-		"parse_expr_entry_sites":              tot.EntrySites,
-		"oracles":                             []string{"n=0 equals no option", "dichotomy: unlimited result or nil+max-expressions error", "monotone threshold", "exactness: every budget above the instrumented step count of the unlimited parse is accepted (one spare step allowed)", "parseExpr entries <= n+1 (instrumented count, not the library's ExprCnt)", "statements <= 400*(n+1)+20000", "no residue after abort (same and other input)"},
+		"concurrent_budget_runs": map[string]interface{}{"plans": agg.Plans, "creations": agg.Ops, "switches": agg.Switches, "nontrivial": agg.Nontrivial,
+			"note": "2-4 callers create evaluators with budgets around the measured step counts under seeded schedules; every creation must return what it returns sequentially"},
+		"budget_error_signature_learned": tot.Signature,
+		"parse_expr_entry_sites":         tot.EntrySites,
+		"oracles":                        []string{"n=0 equals no option", "dichotomy: unlimited result or nil+max-expressions error", "monotone threshold", "exactness: every budget above the instrumented step count of the unlimited parse is accepted (one spare step allowed)", "parseExpr entries <= n+1 (instrumented count, not the library's ExprCnt)", "statements <= 400*(n+1)+20000", "no residue after abort (same and other input)", "under concurrent creation every budgeted parse returns what it returns sequentially"},
 	}
 	c.writeEvidence("fault_enumeration", cov, []string{
 		"inputs are sampled, abort points per input are enumerated",
